@@ -18,6 +18,7 @@ use vcore::rnd;
 
 pub type D = MithrilMembershipDigest;
 
+#[allow(dead_code)]
 pub struct EpochWorld {
     pub label: String,
     pub params: ProtocolParameters,
@@ -105,15 +106,32 @@ pub fn random_world(label: &str, rng: &mut ChaCha20Rng) -> EpochWorld {
 /// its own genesis key.
 pub struct Adversary {
     pub worlds: Vec<Arc<EpochWorld>>,
+    /// same keys and stakes as worlds[0] (hence the same AVK), different protocol parameters
+    pub w0_other_params: Option<Arc<EpochWorld>>,
     pub genesis: GenesisEd25519Signer,
     by_params: RefCell<HashMap<String, Arc<EpochWorld>>>,
 }
 
 impl Adversary {
     pub fn new(rng: &mut ChaCha20Rng) -> Adversary {
-        let worlds = vec![Arc::new(random_world("adv0", rng)), Arc::new(random_world("adv1", rng))];
+        use rand_core::{RngCore, SeedableRng};
+        // worlds[0] is built from a private seed so that it can be rebuilt with the same keys under other parameters
+        let (w0, w0p) = loop {
+            let mut seed = [0u8; 32];
+            rng.fill_bytes(&mut seed);
+            let p = random_params(rng);
+            let s = random_stakes(rng);
+            let Some(w0) = EpochWorld::build("adv0", &p, &s, &mut ChaCha20Rng::from_seed(seed)) else { continue };
+            let mut p2 = p.clone();
+            p2.k += 1;
+            p2.m += 7;
+            p2.phi_f = if p.phi_f > 0.7 { 0.65 } else { 0.8 };
+            let w0p = EpochWorld::build("adv0p", &p2, &s, &mut ChaCha20Rng::from_seed(seed)).filter(|w| w.avk_encoded() == w0.avk_encoded());
+            break (w0, w0p);
+        };
+        let worlds = vec![Arc::new(w0), Arc::new(random_world("adv1", rng))];
         let genesis = GenesisEd25519Signer::create_test_signer(&mut *rng);
-        Adversary { worlds, genesis, by_params: RefCell::new(HashMap::new()) }
+        Adversary { worlds, w0_other_params: w0p.map(Arc::new), genesis, by_params: RefCell::new(HashMap::new()) }
     }
     pub fn genesis_vk(&self) -> GenesisEd25519VerificationKey {
         self.genesis.verification_key()
